@@ -87,6 +87,7 @@ type FnExec struct {
 	freezeHV    bool
 	resultTerms []Term
 	entryPos    int // script position right after the parameters were declared
+	objFrame    *objFrame
 }
 
 func (g *Gen) NewFnExec(fn *ssa.Function, c *Contract) *FnExec {
@@ -347,6 +348,7 @@ func (fx *FnExec) Run() (err error) {
 			fx.sc.Assume(phi)
 		}
 	}
+	fx.setupObjFrame()
 	fx.findLoops()
 	order := fx.rpo()
 	for _, b := range order {
@@ -679,6 +681,7 @@ func (fx *FnExec) execInstr(st *State, in ssa.Instruction) {
 		fx.execAlloc(st, in)
 	case *ssa.Store:
 		p := fx.ptrOf(in.Addr)
+		fx.checkObjFrame(st, p)
 		fx.StoreTo(st, p, fx.val(in.Val))
 	case *ssa.UnOp:
 		fx.execUnOp(st, in)
